@@ -23,7 +23,53 @@ var (
 	verifSite     int32
 	verifSchedN   int
 	verifSched    [64][2]int32
+	verifSeed     uint32
 )
+
+// verifEnv reads the schedule once. When a schedule is given the hash keys of the process are
+// replaced by constants derived from VERIF_MAPX_SEED, so that bucket placement (and with it the
+// iteration order for a given start) is a function of the schedule alone.
+func verifEnv() {
+	verifEnvState = 1
+	sched := gogetenv("VERIF_MAPX")
+	verifPrefix = gogetenv("VERIF_MAPX_PREFIX")
+	if verifPrefix == "" {
+		verifPrefix = "github.com/roddhjav/apparmor.d/"
+	}
+	if sched != "" {
+		verifEnvState = 2
+		verifTrace = gogetenv("VERIF_MAPX_TRACE") != ""
+		seed, _ := verifAtoi(gogetenv("VERIF_MAPX_SEED"), 0)
+		verifSeed = uint32(seed)
+		for i := range aeskeysched {
+			aeskeysched[i] = byte(uint32(i)*2654435761>>11) ^ byte(verifSeed*40503+uint32(i))
+		}
+		for i := range hashkey {
+			hashkey[i] = uintptr(0x9E3779B97F4A7C15>>(uint(i)*7)) ^ uintptr(verifSeed)*0x1000193 | 1
+		}
+		// "-" = no deviation; otherwise site:alt,site:alt
+		i := 0
+		for i < len(sched) && sched[i] != '-' && verifSchedN < len(verifSched) {
+			var a, b int32
+			a, i = verifAtoi(sched, i)
+			i++ // ':'
+			b, i = verifAtoi(sched, i)
+			i++ // ','
+			verifSched[verifSchedN] = [2]int32{a, b}
+			verifSchedN++
+		}
+	}
+}
+
+func verifHash0(r uint32) uint32 {
+	if verifEnvState == 0 {
+		verifEnv()
+	}
+	if verifEnvState != 2 {
+		return r
+	}
+	return verifSeed*2246822519 + 374761393
+}
 
 func verifAtoi(s string, i int) (int32, int) {
 	var n int32
@@ -36,27 +82,7 @@ func verifAtoi(s string, i int) (int32, int) {
 
 func verifMapIterChoice(h *hmap, r uintptr, pc uintptr) uintptr {
 	if verifEnvState == 0 {
-		verifEnvState = 1
-		sched := gogetenv("VERIF_MAPX")
-		verifPrefix = gogetenv("VERIF_MAPX_PREFIX")
-		if verifPrefix == "" {
-			verifPrefix = "github.com/roddhjav/apparmor.d/"
-		}
-		if sched != "" {
-			verifEnvState = 2
-			verifTrace = gogetenv("VERIF_MAPX_TRACE") != ""
-			// "-" = no deviation; otherwise site:alt,site:alt
-			i := 0
-			for i < len(sched) && sched[i] != '-' && verifSchedN < len(verifSched) {
-				var a, b int32
-				a, i = verifAtoi(sched, i)
-				i++ // ':'
-				b, i = verifAtoi(sched, i)
-				i++ // ','
-				verifSched[verifSchedN] = [2]int32{a, b}
-				verifSchedN++
-			}
-		}
+		verifEnv()
 	}
 	if verifEnvState != 2 && verifMapIterHook == nil {
 		return r
@@ -180,9 +206,18 @@ def make(outdir, repo=None, with_runtime=True, with_main=True, extra_replace=Non
             raise SystemExit('HARNESS ERROR: runtime/map.go anchor not found exactly once')
         text = text.replace(anchor, anchor + '\tif h.count > 1 {\n\t\tr = verifMapIterChoice(h, r, getcallerpc())\n\t}\n')
         text += RUNTIME_HELPER
+        if text.count('uint32(rand())') < 3:
+            raise SystemExit('HARNESS ERROR: runtime/map.go hash0 sites not found')
+        text = text.replace('uint32(rand())', 'verifHash0(uint32(rand()))')
         p = os.path.join(outdir, 'runtime_map.go')
         open(p, 'w').write(text)
         rep[src] = p
+        for fast in ('map_fast32.go', 'map_fast64.go', 'map_faststr.go'):
+            fsrc = os.path.join(goroot(), 'src/runtime', fast)
+            ft = open(fsrc).read().replace('uint32(rand())', 'verifHash0(uint32(rand()))')
+            fp = os.path.join(outdir, 'runtime_' + fast)
+            open(fp, 'w').write(ft)
+            rep[fsrc] = fp
     if with_main:
         mainp = os.path.join(repo, 'cmd/prebuild/main.go')
         text = open(mainp).read()
